@@ -94,9 +94,40 @@ class Chaos:
         return bad
 
 
+class SlowTeardown:
+    """DeletePeer while the session's plugin callback is slow, AddPeer of the same peer at once, and the remote
+    reconnecting: the new peer object must not reach Established while the old session is still up."""
+    no_model = True
+
+    def __init__(self, sid, slow, gap):
+        self.sid, self.slow, self.gap = sid, slow, gap
+        self.tag = "readd-during-slow-teardown.%s.%d" % (slow, gap)
+        self.remote_id = 0x0A000002
+
+    def scenario(self):
+        op = OPENB(65000, 0x0A000002)
+        upd = S.frame(S.UPDATE, bytes(4)).hex()
+        st = [["dial", "c1"], ["recv", "c1", 1, 1500], ["send", "c1", op, 0], ["send", "c1", KA, 0], ["recv", "c1", 2, 1500], ["sleep", 20],
+              ["send", "c1", upd, 0], ["sleep", 40], ["api_async", "delete"], ["sleep", self.gap], ["api_async", "add"], ["sleep", 40],
+              ["dial", "c2"], ["recv", "c2", 1, 400], ["send", "c2", op, 0], ["send", "c2", KA, 0], ["recv", "c2", 2, 400],
+              ["sleep", 900]]
+        return {"id": self.sid, "local_as": 65001, "remote_as": 65000, "local_id": 0x0A000001, "hold": 90, "passive": True,
+                "idle_hold_ms": 60, "connect_retry_ms": 500, "caps": [], "on_open": None, "handler": [], "est_writes": [],
+                "handler_delay_ms": 700 if self.slow == "handler" else 0, "first_only": True, "steps": st}
+
+    def model_case(self):
+        return None
+
+    def check(self, r):
+        return []
+
+
 def items(rng, tier):
     n = 60 if tier == "quick" else 800
-    return [Chaos(i, rng, passive=(i % 4 == 0)) for i in range(n)]
+    out = [Chaos(i, rng, passive=(i % 4 == 0)) for i in range(n)]
+    for k, gap in enumerate((5, 30, 120)):
+        out.append(SlowTeardown(n + k, "handler", gap))
+    return out
 
 
 def sys_part(tier, rng, rep, replay):
